@@ -169,7 +169,7 @@ func init() {
 		if thorough {
 			n = 12000
 		}
-		return []CaseSet{genOptionSets(r, n)},
+		return []CaseSet{genOptionSets(r, n), genManyUnknown(r, 1+n/40)},
 			"streams mixing known and unknown messages and unlisted fields, whole and cut, each under all 8 option combinations. Oracles: messages, error class and bytes consumed identical across option sets; lists sorted; counts equal the model's", false
 	}
 	propPost["C16"] = postC16
@@ -646,6 +646,47 @@ func genOptionSets(r *rng, n int) CaseSet {
 		}
 		for _, o := range allOpts {
 			cs.Cases = append(cs.Cases, decCase(entry, o, spec, "-", data))
+		}
+	}
+	return cs
+}
+
+// genManyUnknown: streams with more distinct unknown message numbers than there are local types,
+// whose earlier definitions stay in use after later ones were made, and known messages carrying many
+// unlisted field numbers; under the option sets that record them.
+func genManyUnknown(r *rng, n int) CaseSet {
+	cs := CaseSet{Name: "many-unknown-numbers"}
+	for i := 0; i < n; i++ {
+		var b recs
+		b.Write(fileIdRecs(4, 0))
+		nums := 17 + r.intn(30)
+		base := 60000 + r.intn(4000)
+		for j := 0; j < nums; j++ {
+			l := byte(1 + j%15)
+			b.def(defn{local: l, global: uint16(base + j), fields: []fdef{{byte(j), 1, 0x02}}})
+			b.data(l, []byte{byte(j)})
+			// records through definitions made earlier and still live
+			for q := 0; q < 2 && j > 0; q++ {
+				lo := j - 14
+				if lo < 0 {
+					lo = 0
+				}
+				e := lo + r.intn(j-lo+1)
+				b.data(byte(1+e%15), []byte{byte(e)})
+			}
+		}
+		// a known message with many unlisted field numbers
+		var fs []fdef
+		for f := 0; f < 20+r.intn(30); f++ {
+			fs = append(fs, fdef{byte(150 + f), 1, 0x02})
+		}
+		b.def(defn{local: 0, global: 20, fields: fs})
+		for q := 0; q < 3; q++ {
+			b.data(0, r.bytes(len(fs)))
+		}
+		data := frame(b.Bytes(), randFrame(r))
+		for _, o := range []string{"011", "111", "001", "010"} {
+			cs.Cases = append(cs.Cases, decCase("decode", o, "-", "-", data))
 		}
 	}
 	return cs
